@@ -2,6 +2,7 @@
 import sys
 
 from sa import report, rules_order as RO, rules_state as RS
+from sa import rules_extra as RX
 
 
 def run(ctx, repo):
@@ -19,7 +20,8 @@ def run(ctx, repo):
     RO.r_bounded_read(ctx, repo)
     RO.r_token_demand(ctx, repo)
     RO.r_event_demand(ctx, repo)
-
+    RX.r_single_read(ctx, repo)
+    RX.r_dispose_chain(ctx, repo, ['loader.BaseLoader', 'loader.SafeLoader', 'loader.FullLoader', 'loader.Loader', 'loader.UnsafeLoader', 'cyaml.CBaseLoader', 'cyaml.CSafeLoader', 'cyaml.CFullLoader', 'cyaml.CLoader', 'cyaml.CUnsafeLoader'])
 
 if __name__ == '__main__':
     sys.exit(report.main('C18', 'other', run))
